@@ -46,11 +46,46 @@ var c09Progs = []string{
 	"(let ((f (lambda (&rest xs) (stable-sort < xs)))) (list (apply f '(3 1 2)) (apply f '(3 1 2))))",
 }
 
+// every operator and macro that takes the program's own nodes apart and rebuilds forms from them
+// (forms of 3, 5, 6 and 7 elements: their parsed cell arrays have spare capacity)
+var c09Forms = []string{
+	"(thread-last 5 (+ 1 2) (- 30 4 5 6) (* 1 2 3 4 5 6) (list 1 2))",
+	"(thread-first 5 (+ 1 2) (- 3 4 5 6) (* 1 2 3 4 5 6) (list 1 2))",
+	"(thread-last '(1 2 3) (map 'list (lambda (x) (+ x 1))) (select 'list (lambda (x) (> x 2))) (concat 'list '(9) '(8)))",
+	"(cond ((= 1 2) 'a 'b) ((= 1 1) 'c 'd 'e) (:else 'f))",
+	"(let ((a 1) (b 2) (c 3)) (let* ((d a) (e d) (f e)) (list a b c d e f)))",
+	"(flet ((f (a b c) (list a b c)) (g (x) x)) (labels ((h (n) (if (= n 0) (f 1 2 3) (h (- n 1))))) (h 2)))",
+	"(macrolet ((m (a b c) (quasiquote (list (unquote a) (unquote b) (unquote c))))) (list (m 1 2 3) (m 4 5 6)))",
+	"(defmacro m (&rest xs) (quasiquote (list (unquote-splicing xs) (unquote-splicing xs) 9))) (list (m 1 2 3) (m 4 5 6))",
+	"(dotimes (i 3 (list i 'done 'x)) (list i i i))",
+	"(handler-bind ((c1 (lambda (c &rest a) (list c a 1))) (c2 (lambda (c &rest a) (list c a 2))) (condition (lambda (c &rest a) 3))) (error 'c2 1 2 3))",
+	"(defun f (a &optional b c &key d e) (list a b c d e)) (list (f 1) (f 1 2 3 :e 4 :d 5) (apply f 1 '(2 3)))",
+	"(and 1 2 3 (or () () 4 5) (if 1 2 3) (progn 1 2 3 4 5))",
+	"(let ((f (lambda (x y z) (list x y z)))) (list (funcall f 1 2 3) (apply f 1 2 '(3)) (map 'list (lambda (x) (f x 2 3)) '(1 2 3))))",
+	"(set 'v (vector 1 2 3)) (list (append! v 4) (assoc! (sorted-map 'a 1 'b 2 'c 3) 'd 4) (concat 'list '(1 2 3) '(4 5 6 7 8)))",
+	"(list (format-string \"{} {} {}\" 1 '(2 3 4) \"x\") (to-string 123) (list 'a 'b 'c 'd 'e))",
+	"(defun g (&rest xs) xs) (list (g 1 2 3) (unpack g '(1 2 3)) (funcall g 1 2 3 4 5))",
+	"(let ([a 1] [b 2] [c 3]) (list a b c))",
+	"(quasiquote (1 (unquote (+ 1 1)) (unquote-splicing '(3 4 5)) (6 (unquote (+ 3 4)) 8)))",
+	"(list (funcall #^(+ %1 %2 3) 1 2) (funcall #^(list %1 %2 %3 %4 5) 1 2 3 4) (map 'list #^(* % % %) '(1 2 3)))",
+	"(deftype point (x y z) (sorted-map 'x x 'y y 'z z)) (new point 1 2 3)",
+	"(in-package 'p) (export 'a 'b 'c) (defun a (x y z) (list x y z)) (defun b () 1) (defun c () 2) (in-package 'user) (list (p:a 1 2 3) (progn (use-package 'p) (a 4 5 6)))",
+	"(defun tl (n acc) (if (= n 0) acc (thread-last acc (cons n) (tl (- n 1))))) (tl 3 '())",
+	"(let ((x 1)) (set! x (+ x 1 2)) (list x (if (> x 3) 'big 'small)))",
+	"(assert (= 1 1) \"msg {} {}\" 1 2)",
+	"(labels ((ev (n) (if (= n 0) true (od (- n 1) 'x 'y))) (od (n a b) (if (= n 0) false (ev (- n 1))))) (list (ev 4) (od 3 1 2)))",
+}
+
 // Evaluating a parsed program never changes it: no write reaches a node of the sealed tree, every
 // load (same runtime, again, fresh runtime) gives the same result, and the program text is unchanged.
 func VerifC09_EFrozen() {
-	pi := vndChoice("prog", vParam("nprogs", len(c09Progs)))
-	src := c09Progs[pi]
+	pi := vndChoice("prog", vParam("nprogs", len(c09Progs)+len(c09Forms)))
+	var src string
+	if pi < len(c09Progs) {
+		src = c09Progs[pi]
+	} else {
+		src = c09Forms[pi-len(c09Progs)]
+	}
 	i, j, k := vndInt("i"), vndInt("j"), vndInt("k")
 	vAssume(i >= 0)
 	vAssume(i <= j)
